@@ -19,6 +19,7 @@ import (
 	"runtime"
 	"sort"
 	"sync"
+	"sync/atomic"
 	"testing/synctest"
 	"time"
 )
@@ -696,6 +697,22 @@ func (k *K) Aborting() bool {
 	return a
 }
 
+// appSync carries application-level ordering to the race detector: a task that
+// announces "I am done" (Announce) happens before a task that waited for it
+// (Wait returning true). These two functions are deliberately not
+// //go:norace (see simnet.hbRelease).
+var appSync uint32
+
+func announce() { atomic.AddUint32(&appSync, 1) }
+
+func observed() { atomic.LoadUint32(&appSync) }
+
+// Announce is called by a harness task right before it publishes a completion
+// flag that another task waits for.
+//
+//go:norace
+func (k *K) Announce() { announce() }
+
 // Cond is a predicate over simulator/harness state, evaluated on the kernel
 // goroutine.
 type Cond interface{ Holds() bool }
@@ -738,7 +755,11 @@ func (k *K) Wait(site string, obj int, c Cond, timeout time.Duration) bool {
 	}
 	r := &Req{Site: site, Obj: obj, Op: o}
 	k.Block(r)
-	return !r.Aborted && !o.Timed
+	if !r.Aborted && !o.Timed {
+		observed()
+		return true
+	}
+	return false
 }
 
 // WaitSteps parks the calling task until n more kernel steps have been taken,
